@@ -46,6 +46,9 @@ def is_canonical(event):
     for tag in event.tags:
         if not (isinstance(tag, (list, tuple)) and len(tag) > 0):
             return False
+        # the tag name is text (the indexes take its length)
+        if not isinstance(tag[0], str):
+            return False
         for item in tag:
             # strings, or plain integers (which serialize unambiguously)
             if not isinstance(item, (str, int)) or isinstance(item, bool):
